@@ -15,7 +15,11 @@ EXPLANATION = (
     "externally tagged object variant is required, an internal tag is looked for among required members only, and every member "
     "(tag and content) of an adjacently tagged branch is required; (W5) where one schema's sibling subschemas (tuple items, "
     "variants, flattened members) are converted in a loop, the type-name hint handed to the converter depends on the element "
-    "(its index or name) or is Name::Unknown — a loop-constant hint makes the siblings collide on one registered name."
+    "(its index or name) or is Name::Unknown — a loop-constant hint makes the siblings collide on one registered name; (D2) the test that the "
+    "alternatives of an anyOf are mutually exclusive (which lets it be treated as a oneOf / untagged enum where the first "
+    "matching variant wins) applies the pairwise predicate to *all* pairs — two nested iterations over the alternatives — not "
+    "to neighbours only; (W5b) a per-variant helper that names the variant's payload type derives the hint from something "
+    "that differs per variant."
 )
 ASSUMPTIONS = ["serde tag inference, untagged ordering and shadowing are not decided"]
 
@@ -227,3 +231,88 @@ def run(facts, rep, tier):
                    "the name hint depends on the element" if "elem<" in nm else "no name hint (Name::Unknown)" if ok else
                    "every element of the loop is converted under the same name hint `%s`: two different sibling schemas derive one type name and the second silently reuses the first one's type, so its valid instances are rejected or rewritten" % nm[:80], n.get("sp"))
     rep.floor("C02.W5", "per-element conversions with a name hint", n_sites, 5)
+
+    # ------------------------------------------------------------ D2 all pairs
+    n_pair = 0
+    for h in c.user_fns():
+        f = c.fns.get(h["fn"], {})
+        if f.get("output") != "bool" or not any("[schemars::schema::Schema]" in t for t in f.get("inputs", [])):
+            continue
+        cnd = Canon(c, h, 4)
+        for n, anc in walk(h["body"]):
+            if n.get("k") != "call" or not n.get("fn"):
+                continue
+            g = c.fns.get(n["fn"], {})
+            gi = g.get("inputs", [])
+            if not (g.get("output") == "bool" and len(gi) >= 2 and gi[0] == gi[1] and gi[0].replace("&", "").strip().endswith("schema::Schema")):
+                continue
+            n_pair += 1
+            # the iteration that produces the pair
+            outer = [a for a in anc if a.get("k") == "mcall" and a["name"] in ("all", "any", "for_each", "try_for_each", "map", "filter", "find")]
+            chain = cnd.r(outer[0]["recv"]) if outer else ""
+            fors = [a for a in anc if a.get("k") == "match" and a.get("src") == "for"]
+            nested = ("flat_map(" in chain and ".map(" in chain) or len(fors) >= 2 or "combinations" in chain
+            adjacent = any(w in chain for w in (".windows(", ".chunks(", ".array_windows(", ".zip(")) or any(re.search(r"\.(windows|chunks)\(", cnd.r(a["scrut"])) for a in fors)
+            ok = nested and not adjacent
+            rep.ob("C02.D2", "exclusive-for-all-pairs:%s" % h["fn"], ok,
+                   "the pairwise predicate is applied under two nested iterations over the alternatives" if ok else
+                   "alternatives are tested for mutual exclusion only as %s: a non-adjacent overlapping pair lets an anyOf be treated as a oneOf, and in the untagged enum the first matching variant shadows the other (valid instances are rejected or lose members)" % ("neighbours (`%s`)" % chain[-40:] if adjacent else "produced by `%s`" % chain[-60:]), n.get("sp"))
+    rep.floor("C02.D2", "applications of a binary schema predicate to elements of one slice", n_pair, 1)
+
+    # ------------------------------------------------------------ W5b per-variant helpers
+    from lib import PCanon
+    n_b = 0
+    for h in c.user_fns():
+        # callers that invoke h per element: which parameters vary with the element
+        varying = set()
+        called_in_loop = False
+        for hh in c.user_fns():
+            cnc = None
+            for x, xa in walk(hh["body"]):
+                if x.get("k") in ("call", "mcall") and x.get("fn") == h["fn"] and hh is not h:
+                    if any(a.get("k") == "closure" or (a.get("k") == "match" and a.get("src") == "for") for a in xa):
+                        cnc = cnc or Canon(c, hh, 4)
+                        args = ([x["recv"]] if x.get("k") == "mcall" else []) + list(x["args"])
+                        # the element of the innermost enclosing iteration, as Canon renders it
+                        elem_txt = []
+                        for j in range(len(xa) - 1, -1, -1):
+                            a2 = xa[j]
+                            if a2.get("k") == "closure" and j > 0 and xa[j - 1].get("k") == "mcall":
+                                elem_txt.append("elem<%s>" % cnc.r(xa[j - 1]["recv"]))
+                                break
+                            if a2.get("k") == "match" and a2.get("src") == "for":
+                                elem_txt.append(cnc.r(a2["scrut"]))
+                                break
+                        vs = [i for i, a_ in enumerate(args) if any(t_ and t_ in cnc.r(a_) for t_ in elem_txt)]
+                        if vs:
+                            called_in_loop = True
+                            varying |= set(vs)
+        if not called_in_loop:
+            continue
+        ins = c.fns.get(h["fn"], {}).get("inputs", [])
+        if any(t.replace("&", "").strip().endswith("schema::Schema") for t in ins):
+            continue  # its own (Name, &Schema) call sites are W5 sites
+        pc = None
+        for n, anc in walk(h["body"]):
+            if n.get("k") not in ("call", "mcall") or not n.get("fn"):
+                continue
+            g = c.fns.get(n["fn"])
+            if not g or g.get("derived"):
+                continue
+            gi = g.get("inputs", [])
+            if not (any(t.endswith("Name") for t in gi) and any(t.replace("&", "").strip().endswith("schema::Schema") for t in gi)):
+                continue
+            if any(a.get("k") == "closure" or (a.get("k") == "match" and a.get("src") == "for") for a in anc):
+                continue
+            pc = pc or PCanon(c, h, 5)
+            name_args = [a for a in n["args"] if (c.ty(a.get("ty")) or "").endswith("Name")]
+            if not name_args:
+                continue
+            nm = pc.r(name_args[0])
+            n_b += 1
+            dep = any(("$P%d" % i) in nm for i in varying)
+            # the hint must involve a varying parameter in at least one of its cases
+            rep.ob("C02.W5", "variant-payload-hint-varies:%s->%s" % (h["fn"], n["fn"].split("::")[-1]), dep or nm == "Name::Unknown",
+                   "the payload type's name hint depends on a per-variant argument" if dep else
+                   "`%s` is called once per variant, but the name hint it gives the variant's payload type (`%s`) is built from arguments that are the same for every variant: same-named nested types of different variants collide and the later variant silently gets the first one's type" % (h["fn"].split("::")[-1], nm[:80]), n.get("sp"))
+    rep.floor("C02.W5", "per-variant helpers that name a payload type", n_b, 1)
